@@ -14,6 +14,8 @@
 """This module contains a compiler that merges Gaussian operations into their symplectic forms,
 in a Gaussian and non-Gaussian circuit."""
 
+import networkx as nx
+
 import strawberryfields.program_utils as pu
 
 from .compiler import Compiler
@@ -338,9 +340,32 @@ class GaussianMerge(Compiler):
                         merged_gaussian_ops.append(predecessor)
 
         merged_gaussian_ops = self.remove_invalid_operations(op, merged_gaussian_ops)
+        merged_gaussian_ops = self.remove_separated_operations(op, merged_gaussian_ops)
 
         if self.is_redundant_merge(op, merged_gaussian_ops):
             return []
+        return merged_gaussian_ops
+
+    def remove_separated_operations(self, op, merged_gaussian_ops):
+        """
+        Helper function that removes operations from merged_gaussian_ops if an operation that is not merged
+        lies on a path between them and op: merging would move them across that operation.
+        """
+        while merged_gaussian_ops:
+            block = [op] + merged_gaussian_ops
+            after = set().union(*(nx.descendants(self.DAG, gate) for gate in block))
+            before = set().union(*(nx.ancestors(self.DAG, gate) for gate in block))
+            between = (after & before) - set(block)
+            if not between:
+                break
+            after = set().union(*(nx.descendants(self.DAG, gate) for gate in between))
+            before = set().union(*(nx.ancestors(self.DAG, gate) for gate in between))
+            merged_gaussian_ops = [
+                gate
+                for gate in merged_gaussian_ops
+                if not (gate in after and op not in after)
+                and not (gate in before and op not in before)
+            ]
         return merged_gaussian_ops
 
     def is_redundant_merge(self, op, merged_gaussian_ops):
